@@ -158,7 +158,7 @@ def gen_c09(rng):
         ops.append(f"get k={k}")
     if reinsert != "none":
         # key 0 written early, then pushed out by several device capacities of other keys
-        ops2 = [f"ins k=0 ver={ver} size=7000", "wait"]; ver += 1
+        ops2 = [f"ins k=0 ver={ver} size={rng.choice([7000, 20000, 61000])}", "wait"]; ver += 1   # 61000: a maximum-size entry
         for i in range(blocks * 8):
             ops2.append(f"ins k={100 + i} ver={ver} size=7000"); ver += 1
             if i % 3 == 2:
@@ -183,9 +183,13 @@ def gen_c04(rng, wrap, tears="0,1"):
     cfg = H.cfg_line(policy=policy, algo="fifo", mem=(2 if policy == "woe" else 100), univ=4, blocks=16, tomb=tomb)
     ops, ver = [], 1
     for _ in range(rng.randrange(4, 12)):
-        a = rng.choices(["ins", "rm", "sync"], [60, 15, 25])[0]
+        a = rng.choices(["ins", "rm", "sync", "insrm"], [50, 15, 25, 10])[0]
         k = rng.randrange(4)
-        if a == "ins":
+        if a == "insrm":
+            # a fresh version deleted before it was flushed
+            ops.append(f"ins k={k} ver={ver} size=64"); ver += 1
+            ops.append(f"rm k={k}")
+        elif a == "ins":
             ops.append(f"ins k={k} ver={ver} size={rng.choice([64, 3000, 9000, 30000])}"); ver += 1
         elif a == "rm":
             ops.append(f"rm k={k}")
